@@ -43,6 +43,8 @@ var c13HeaderSets = [][][2]string{
 	{{"X-Request-ID", "my-id-123"}},
 	{{"X-Request-Start", "t=12345"}},
 	{{"Connection", "x-hop"}, {"X-Hop", "1"}, {"X-Keep", "2"}},
+	// a forwarding chain sent on several header lines
+	{{"X-Forwarded-For", "10.10.10.10"}, {"x-forwarded-for", "10.20.20.20, 10.30.30.30"}, {"X-Forwarded-For", "10.40.40.40"}},
 }
 var c13Bodies = []string{"none", "1", "70k", "70k-chunked"}
 var c13Responses = []string{"r200", "r201", "r204", "r301", "r404", "r500", "r503", "rbig", "rchunk", "rhints"}
@@ -536,7 +538,7 @@ func checkC13(t *testing.T, job *Job, res *Result) {
 	if job.Replay != nil {
 		tier = job.Replay.Tier
 	}
-	res.Rule = "requests built from raw bytes through Server.buildHandler -> router -> service -> target -> real http.Transport -> in-memory echo target; core = every path of <=3 (thorough <=4) segments over {a, a%2Fb, %41, a%20b, app, empty, ;p=1, a+b, %E2%82%AC} with and without trailing slash x 5 mounts (/, /app stripped, /app unstripped, /app/v2 beside /app, / with request+response buffering) x 8 raw queries, other dimensions rotating; look-alike paths; methods x bodies (none, 1B, 70kB, 70kB chunked) x 10 responses (incl. 103 early hints, target's own 503) x 6 header sets x header forwarding on/off; oracle: wire request and client response compared byte for byte with what was sent; plus two overlapping requests of one service mounted on two stripped prefixes (both held by a pause; one uploading slowly into the request buffer)"
+	res.Rule = "requests built from raw bytes through Server.buildHandler -> router -> service -> target -> real http.Transport -> in-memory echo target; core = every path of <=3 (thorough <=4) segments over {a, a%2Fb, %41, a%20b, app, empty, ;p=1, a+b, %E2%82%AC} with and without trailing slash x 5 mounts (/, /app stripped, /app unstripped, /app/v2 beside /app, / with request+response buffering) x 8 raw queries, other dimensions rotating; look-alike paths; methods x bodies (none, 1B, 70kB, 70kB chunked) x 10 responses (incl. 103 early hints, target's own 503) x 7 header sets x header forwarding on/off; oracle: wire request and client response compared byte for byte with what was sent; plus two overlapping requests of one service mounted on two stripped prefixes (both held by a pause; one uploading slowly into the request buffer)"
 	res.Bounds = "path segments<=3 quick / <=4 thorough; full product of the path x mount x query core"
 	runE(t, job, res, &ESpec{Prop: "C13", Setup: c13Setup, Cases: c13Cases(tier), Batch: 400})
 }
